@@ -147,6 +147,51 @@ def run(ctx):
         ctx.record(case, shape=None, nontrivial=nontrivial,
                    cls=type(v).__name__ + (":same" if shapes[0] == shapes[1] else ":differ"),
                    sample={"value": v, "orjson": shapes[0], "stdlib": shapes[1]})
+    # ---- every encoding is one NDJSON frame for the library's own line reader -----------------------------------
+    # (each backend's text, wrapped in a notification, is fed to the real stdio reader: one line in, one message out)
+    from vf.stdio_harness import run_stdio_script
+    from vf.ref import msg_to_wire
+    SEP = set("\u0085\u2028\u2029\x0b\x0c\x1c\x1d\x1e\r\n")
+
+    def has_sep(v, depth=0):
+        if isinstance(v, str):
+            return bool(SEP & set(v))
+        if depth > 6:
+            return False
+        if isinstance(v, list):
+            return any(has_sep(x, depth + 1) for x in v)
+        if isinstance(v, dict):
+            return any(has_sep(k, depth + 1) or has_sep(x, depth + 1) for k, x in v.items())
+        return False
+    picked = [i for i, v in enumerate(vals) if has_sep(v)][:400] + list(range(0, len(vals), max(1, len(vals) // 100)))
+    for b in ("orjson", "stdlib"):
+        idx = [i for i in picked if first[b]["enc"][i][0] == "ok" and isinstance(first[b]["enc"][i][1], str)]
+        for k in range(0, len(idx), 150):
+            part = idx[k:k + 150]
+            steps = []
+            for i in part:
+                steps.append(("feed", ('{"jsonrpc":"2.0","method":"notifications/frame","params":{"i":%d,"v":%s}}\n'
+                                       % (i, first[b]["enc"][i][1])).encode("utf-8")))
+            steps.append(("settle",))
+            try:
+                out = run_stdio_script(steps)
+            except Exception as e:  # noqa
+                ctx.inconclusive_because(f"frame check could not drive the stdio reader: {e!r}")
+                break
+            got = {}
+            for m in out["read"]:
+                w = msg_to_wire(m)
+                if isinstance(w, dict) and w.get("method") == "notifications/frame":
+                    got[(w.get("params") or {}).get("i")] = (w.get("params") or {}).get("v")
+            ctx.count("frames_fed_to_line_reader", len(part))
+            for i in part:
+                if i not in got:
+                    ctx.violation("encoding_not_one_frame", f"{b}: the encoding of this value, sent as one line, did not come "
+                                  f"out of the library's line reader as one message: {first[b]['enc'][i][1][:80]!r}",
+                                  {"value": vals[i], "backend": b})
+                elif tagged(got[i]) != tagged(vals[i]):
+                    ctx.violation("cross_round_trip", f"{b}: value changed on its way through the line reader: {got[i]!r}",
+                                  {"value": vals[i], "backend": b})
     # ---- very deep values: nesting beyond what the fast backend encodes (254) / decodes (1024) natively ---------
     for j, (kind, depth, leaf) in enumerate(deep):
         case = {"deep": [kind, depth, leaf]}
